@@ -70,6 +70,9 @@ def gen_history(rng, tier):
             ops.append(("grow", grp, "function"))
         elif r < 0.36 and tier == "thorough":
             ops.append(("grow", grp, "workers"))
+        elif r < 0.40:
+            ops.append(("grow", grp[:2], "function-workers"))
+            ids = grp[2:] + ids
         else:
             ops.append(("grow", grp))
         if rng.random() < 0.2:
